@@ -96,6 +96,15 @@ func genWeekdays(r *rand.Rand) map[int]bool {
 	return m
 }
 
+// over draws a value in lo..99, half of the time exactly lo: the first value beyond a domain is where an
+// off-by-one in a range check shows.
+func over(r *rand.Rand, lo int) int {
+	if r.Intn(2) == 0 {
+		return lo
+	}
+	return lo + r.Intn(100-lo)
+}
+
 func genSegments(r *rand.Rand) map[uint8]Segment {
 	m := map[uint8]Segment{}
 	for k := uint8(1); k <= 3; k++ {
@@ -110,6 +119,10 @@ func genSegments(r *rand.Rand) map[uint8]Segment {
 			a, b = HHmm{}, HHmm{}
 		}
 		m[k] = Segment{a, b}
+	}
+	if r.Intn(8) == 0 {
+		// entries outside 1..3 belong to no protocol field: ignored, whatever they hold
+		m[[]uint8{0, 4, 9, 255}[r.Intn(4)]] = Segment{HHmm{18, 0}, HHmm{17, 0}}
 	}
 	return m
 }
@@ -404,9 +417,9 @@ func spoil(r *rand.Rand, k Kind, b []byte, hardOnly bool) bool {
 		y := 1990 + r.Intn(60)
 		switch r.Intn(5) {
 		case 0:
-			putBCDDate(b, y, 13+r.Intn(87), 1+r.Intn(28))
+			putBCDDate(b, y, over(r, 13), 1+r.Intn(28))
 		case 1:
-			putBCDDate(b, y, 1+r.Intn(12), 32+r.Intn(68))
+			putBCDDate(b, y, 1+r.Intn(12), over(r, 32))
 		case 2:
 			putBCDDate(b, y|1, 2, 29) // odd year: never leap
 		case 3:
@@ -436,15 +449,15 @@ func spoil(r *rand.Rand, k Kind, b []byte, hardOnly bool) bool {
 		}
 		switch r.Intn(6) {
 		case 0:
-			b[4] = bcd2(24 + r.Intn(76))
+			b[4] = bcd2(over(r, 24))
 		case 1:
-			b[5] = bcd2(60 + r.Intn(40))
+			b[5] = bcd2(over(r, 60))
 		case 2:
-			b[6] = bcd2(60 + r.Intn(40))
+			b[6] = bcd2(over(r, 60))
 		case 3:
-			b[2] = bcd2(13 + r.Intn(87))
+			b[2] = bcd2(over(r, 13))
 		case 4:
-			b[3] = bcd2(32 + r.Intn(68))
+			b[3] = bcd2(over(r, 32))
 		case 5:
 			b[2], b[3] = 0x02, 0x30
 		}
@@ -457,9 +470,9 @@ func spoil(r *rand.Rand, k Kind, b []byte, hardOnly bool) bool {
 		}
 		switch r.Intn(3) {
 		case 0:
-			b[1] = bcd2(13 + r.Intn(87))
+			b[1] = bcd2(over(r, 13))
 		case 1:
-			b[2] = bcd2(32 + r.Intn(68))
+			b[2] = bcd2(over(r, 32))
 		case 2:
 			b[1] = 0
 		}
@@ -471,11 +484,11 @@ func spoil(r *rand.Rand, k Kind, b []byte, hardOnly bool) bool {
 		}
 		switch r.Intn(3) {
 		case 0:
-			b[0] = bcd2(24 + r.Intn(76))
+			b[0] = bcd2(over(r, 24))
 		case 1:
-			b[1] = bcd2(60 + r.Intn(40))
+			b[1] = bcd2(over(r, 60))
 		case 2:
-			b[2] = bcd2(60 + r.Intn(40))
+			b[2] = bcd2(over(r, 60))
 		}
 		return true
 	case KHHmm:
@@ -490,9 +503,9 @@ func spoil(r *rand.Rand, k Kind, b []byte, hardOnly bool) bool {
 		case 2:
 			b[0], b[1] = 0x24, bcd2(1+r.Intn(59))
 		case 3:
-			b[0], b[1] = bcd2(25+r.Intn(75)), bcd2(r.Intn(60))
+			b[0], b[1] = bcd2(over(r, 25)), bcd2(r.Intn(60))
 		case 4:
-			b[0], b[1] = bcd2(r.Intn(24)), bcd2(61+r.Intn(39))
+			b[0], b[1] = bcd2(r.Intn(24)), bcd2(over(r, 61))
 		}
 		return true
 	}
